@@ -103,7 +103,7 @@ def classTable : List (String × OpClass) := [
 def classOf (op : String) : Option OpClass := classTable.lookup op
 
 /-- container kinds of the property's quantifier -/
-def kinds : List String := ["regular", "nested", "lazy", "sub", "tensorclass", "memmap", "shared", "params"]
+def kinds : List String := ["regular", "nested", "lazy", "sub", "tensorclass", "memmap", "shared", "params", "locked"]
 
 /-- Rows where the code that exists does NOT behave as the class the property assigns (known
 findings, see known_findings.json): the model transcribes the code, the oracle keeps the property's class.
